@@ -90,6 +90,11 @@ func (c *AesCipher) Decrypt(cipherTextWithIv []byte) ([]byte, error) {
 		return nil, fmt.Errorf("failed to create GCM: %w", err)
 	}
 
+	// gcm.Open panics on a nonce of the wrong length; the IV comes from the client's hostname.
+	if len(iv) != gcm.NonceSize() {
+		return nil, fmt.Errorf("invalid IV length %d", len(iv))
+	}
+
 	// Decrypt the data
 	plainText, err := gcm.Open(nil, iv, cipherText, nil)
 	if err != nil {
